@@ -4,7 +4,7 @@
 // and each thread computes a function of the unchanging shared state.  ll2c --store-hook instruments every such write in every
 // function; rt/rt_c20.c asserts the written object is not shared.  shard params: 0 base, 1 group of const queries, 2 pending deletion (0/1), 4 slice (groups 1-4 only visit centres with index % 4 == slice).
 #include "ops.h"
-extern "C" { void v_register_shared(const void *p, unsigned long n); void v_epoch_mark(); void v_epoch_end(); }
+extern "C" { void v_register_scratch(const void *p, unsigned long n); void v_register_shared(const void *p, unsigned long n); void v_epoch_mark(); void v_epoch_end(); }
 
 static volatile int vh_sink;
 template <class It> static inline void walk(It it, int limit) {
@@ -27,6 +27,7 @@ extern "C" void harness_c20() {
   const TopologyKernel &m = mesh;                // everything below goes through a const reference
   const int nV = (int)m.n_vertices(), nE = (int)m.n_edges(), nF = (int)m.n_faces(), nC = (int)m.n_cells();
   v_register_shared(&mesh, sizeof(mesh));
+  v_register_scratch((const void *)&vh_sink, sizeof(vh_sink));
   v_epoch_mark();
   int s = 0;
 #ifdef C20_SELFTEST
